@@ -1,5 +1,8 @@
 import Rawr.Proofs.HashKeys
 import Rawr.Proofs.HashSpec
+import Rawr.Proofs.HashNull
+import Rawr.Proofs.HashMove
+import Rawr.Proofs.HashValid
 /-! # C04  Position key: incremental equals recomputed, and depends on the position only -/
 namespace Rawr
 open Position Spec ZH
@@ -55,9 +58,157 @@ example :
   · intro s _; rfl
   all_goals rfl
 
+/-! ## (b) null move -/
+
+/-- `makenull` keeps the stored key equal to the recomputed key. -/
+theorem C04b_null (p : Position) (h : p.hash = p.calculateHash) :
+    p.makenull.hash = p.makenull.calculateHash := null_preserves p h
+
+/-- non-vacuity: the hypothesis holds for the start position, and after 1. e4 (en-passant square set,
+so the null move has an en-passant key to remove). -/
+example : Gen.startpos.hash = Gen.startpos.calculateHash := C04d_startpos_key
+example : ∃ q, Gen.startpos.makemove ⟨12, 28, 6⟩ true = some q ∧ q.ep.isSome ∧ q.hash = q.calculateHash := by
+  decide +kernel
+
+/-! ## (a) moves
+
+Hypotheses. `KeyHyps p` (Bool): `Consistent p`, at most one king of the side to move, every castling right
+backed by a rook of the right colour on its square. `MoveShape p m` (Bool): the shape of every generated
+move — own piece on `src`; `dst` empty / enemy piece / own castling rook (king takes rook, on the right side,
+king's and rook's target squares free); a pawn leaves its file onto an empty square only en passant (ep
+square = `dst`, enemy pawn behind it, no promotion); promotion pieces only for pawns. Both follow from
+`ValidPos p` and `m ∈ legalMoves p`: the first implication is `C04a_keyHyps_of_valid` below, the second
+(`MoveShape` of every generated move) is not proved here — it needs the generator's correctness
+(e.g. that a slider target is never an own piece goes through the magic tables); it is kernel-checked
+on the start position in the examples and is executable, so the differential harness can check it. -/
+
+/-- on the domain, the position hypotheses hold. -/
+theorem C04a_keyHyps_of_valid (p : Position) (hv : ValidPos p = true) : KeyHyps p = true :=
+  keyHyps_of_valid hv
+
+/-- Key-table-generic form: in a position whose stored key is the key recomputed w.r.t. `K`, the key
+`predict_hash` computes (w.r.t. `K`) for a move equals the key recomputed (w.r.t. `K`) from the position
+`makemove` produces (with or without key update). -/
+theorem C04a_predict_generic (K : ZKeys) (p : Position) (m : Mv) (u : Bool) (q : Position) (h : BB)
+    (kh : KeyHyps p = true) (hm : MoveShape p m = true) (hinv : p.hash = calculateHashK K p)
+    (hp : predictHashK K p m = some h) (hq : p.makemove m u = some q) : h = calculateHashK K q :=
+  predict_eq_calc K kh hm hinv hp hq
+
+/-- C04(a) for the engine's table: after `makemove::<true>` the stored key is the predicted key and equals
+the key recomputed from scratch. -/
+theorem C04a_predict (p : Position) (m : Mv) (h : BB) (q : Position)
+    (kh : KeyHyps p = true) (hm : MoveShape p m = true) (hinv : p.hash = p.calculateHash)
+    (hp : p.predictHash m = some h) (hq : p.makemove m true = some q) :
+    q.hash = h ∧ q.hash = q.calculateHash := by
+  obtain ⟨h1, h2⟩ := move_preserves kh hm hinv hq
+  rw [hp] at h1
+  exact ⟨(Option.some.inj h1).symm, h2⟩
+
+/-- the move classes, for reference (each is an instance of `C04a_predict`; the proof is organised as
+non-castling moves with optional capture / en-passant capture / promotion, and castling either side). -/
+theorem C04a_any (p : Position) (m : Mv) (q : Position)
+    (kh : KeyHyps p = true) (hm : MoveShape p m = true) (hinv : p.hash = p.calculateHash)
+    (hq : p.makemove m true = some q) : p.predictHash m = some q.hash ∧ q.hash = q.calculateHash :=
+  move_preserves kh hm hinv hq
+
+/-- the statement over the engine's own domain and generator. -/
+def C04a_full : Prop :=
+  ∀ (p : Position) (m : Mv) (h : BB) (q : Position), ValidPos p = true → m ∈ legalMoves p →
+    p.predictHash m = some h → p.makemove m true = some q → q.hash = h ∧ q.hash = q.calculateHash
+
+/-- C04(a) on the domain, for any move of the generated shape. -/
+theorem C04a_valid (p : Position) (m : Mv) (h : BB) (q : Position) (hv : ValidPos p = true)
+    (hm : MoveShape p m = true) (hp : p.predictHash m = some h) (hq : p.makemove m true = some q) :
+    q.hash = h ∧ q.hash = q.calculateHash := by
+  have hinv : p.hash = p.calculateHash := by
+    simp only [ValidPos, Bool.and_eq_true, beq_iff_eq] at hv
+    exact hv.2
+  exact C04a_predict p m h q (keyHyps_of_valid hv) hm hinv hp hq
+
+/-- what is missing for `C04a_full`: that every generated move has the shape. -/
+theorem C04a_full_of
+    (H2 : ∀ (p : Position) (m : Mv), ValidPos p = true → m ∈ legalMoves p → MoveShape p m = true) :
+    C04a_full := by
+  intro p m h q hv hmem hp hq
+  exact C04a_valid p m h q hv (H2 p m hv hmem) hp hq
+
+/-! non-vacuity: quiet move, castling, en passant, capture-promotion that removes a castling right -/
+
+/-- a position given by its boards (mover = White), key recomputed. -/
+def mkPos (c0 c1 p0 p1 p2 p3 p4 p5 : BB) (ep : Option Nat) (uK uQ tK tQ : Bool) : Position :=
+  let p : Position :=
+    { c0 := c0, c1 := c1, p0 := p0, p1 := p1, p2 := p2, p3 := p3, p4 := p4, p5 := p5,
+      halfmoves := 0, fullmoves := 1, black := false, ep := ep,
+      usK := uK, usQ := uQ, themK := tK, themQ := tQ, cf0 := 7, cf1 := 0, cf2 := 7, cf3 := 0,
+      hash := 0#64, frc := false }
+  { p with hash := p.calculateHash }
+
+def okExample (p : Position) (m : Mv) : Bool :=
+  KeyHyps p && MoveShape p m && p.hash == p.calculateHash &&
+  match p.makemove m true with
+  | some q => p.predictHash m == some q.hash && q.hash == q.calculateHash
+  | none => false
+
+-- 1. e4 from the start position; every generated move of the start position has the shape
+example : okExample Gen.startpos ⟨12, 28, 6⟩ = true := by decide +kernel
+example : ValidPos Gen.startpos = true := by decide +kernel
+example : (legalMoves Gen.startpos).all (MoveShape Gen.startpos) = true := by decide +kernel
+-- O-O: Ke1 takes Rh1 (Kg1, Rf1); Black king e8
+example : okExample (mkPos 0x90#64 0x1000000000000000#64 0 0 0 0x80#64 0 0x1000000000000010#64 none true false false false)
+    ⟨4, 7, 6⟩ = true := by decide +kernel
+-- O-O-O in a Chess960 set-up: Kb1 takes Ra1 (Kc1, Rd1)
+example : okExample (mkPos 0x3#64 0x1000000000000000#64 0 0 0 0x1#64 0 0x1000000000000002#64 none false true false false)
+    ⟨1, 0, 6⟩ = true := by decide +kernel
+-- e5xd6 en passant
+example : okExample (mkPos 0x1000000010#64 0x1000000800000000#64 0x1800000000#64 0 0 0 0 0x1000000000000010#64
+    (some 43) false false false false) ⟨36, 43, 6⟩ = true := by decide +kernel
+-- b7xa8=Q, taking the rook that backs Black's queen-side right
+example : okExample (mkPos 0x2000000000010#64 0x1100000000000000#64 0x2000000000000#64 0 0 0x100000000000000#64 0
+    0x1000000000000010#64 none false false false true) ⟨49, 56, 4⟩ = true := by decide +kernel
+
+/-! ## sequences -/
+
+/-- one ply: a move (from a position with `KeyHyps`, of `MoveShape`, made with key update) or a null move. -/
+inductive KeyStep : Position → Position → Prop
+  | move {p q : Position} (m : Mv) : KeyHyps p = true → MoveShape p m = true →
+      p.makemove m true = some q → KeyStep p q
+  | null (p : Position) : KeyStep p p.makenull
+
+/-- any finite sequence of plies. -/
+inductive KeyPath : Position → Position → Prop
+  | nil (p : Position) : KeyPath p p
+  | cons {p q r : Position} : KeyStep p q → KeyPath q r → KeyPath p r
+
+/-- the incrementally maintained key equals the recomputed key after any sequence of moves and null moves. -/
+theorem C04_sequence {p q : Position} (path : KeyPath p q) (h : p.hash = p.calculateHash) :
+    q.hash = q.calculateHash := by
+  induction path with
+  | nil p => exact h
+  | cons st _ ih =>
+    apply ih
+    cases st with
+    | move m kh hm hq => exact (move_preserves kh hm h hq).2
+    | null => exact C04b_null _ h
+
+/-- non-vacuity: 1. e4 (null) from the start position is such a path. -/
+example : ∃ q r, Gen.startpos.makemove ⟨12, 28, 6⟩ true = some q ∧ r = q.makenull ∧
+    KeyPath Gen.startpos r ∧ r.hash = r.calculateHash := by
+  have h1 : (Gen.startpos.makemove ⟨12, 28, 6⟩ true).isSome = true := by decide +kernel
+  obtain ⟨q, hq⟩ := Option.isSome_iff_exists.mp h1
+  have path : KeyPath Gen.startpos q.makenull :=
+    .cons (.move ⟨12, 28, 6⟩ (by decide +kernel) (by decide +kernel) hq) (.cons (.null q) (.nil _))
+  exact ⟨q, _, hq, rfl, path, C04_sequence path C04d_startpos_key⟩
+
 #print axioms C04d_keys_distinct
 #print axioms C04d_startpos_key
 #print axioms C04c_calc_eq_spec
 #print axioms C04c_position_only
 #print axioms C04c_flip
+#print axioms C04b_null
+#print axioms C04a_predict_generic
+#print axioms C04a_predict
+#print axioms C04a_keyHyps_of_valid
+#print axioms C04a_valid
+#print axioms C04a_full_of
+#print axioms C04_sequence
 end Rawr
